@@ -8,11 +8,11 @@ using namespace vf;
 const char *vf::PROPERTY = "C17";
 void vf::harness_init() { silence_cerr(); }
 
-struct Grp { Z p, q, g, h; unsigned long F, G; };
+struct Grp { Z p, q, g, h, d; unsigned long F, G; }; // d = log_g h: the harness generates h and therefore knows the trapdoor of the commitment scheme
 static Grp pick_grp(Ctx &ctx) {
   Grp r; GroupSpec gs{G_SCHNORR_CANON, 384, 128, (unsigned)ctx.c.index(3)}; if (ctx.c.prob(1, 5)) { gs.fsize = 512; gs.gsize = 160; }
   auto l = split_lines(vtmf_group_text(gs.kind, gs.fsize, gs.gsize, gs.idx)); r.p = zparse62(l[0]); r.q = zparse62(l[1]); r.g = zparse62(l[2]); r.F = gs.fsize; r.G = gs.gsize;
-  r.h = zpowm(r.g, zrand_below(ctx, r.q - 2) + 2, r.p); return r;
+  r.d = zrand_below(ctx, r.q - 2) + 2; r.h = zpowm(r.g, r.d, r.p); return r;
 }
 static JareckiLysyanskayaEDCF *mk(const Grp &G, size_t n, size_t t) { return new JareckiLysyanskayaEDCF(n, t, G.p.get_mpz_t(), G.q.get_mpz_t(), G.g.get_mpz_t(), G.h.get_mpz_t(), G.F, G.G); }
 
@@ -52,6 +52,31 @@ VF_SUB(twoparty_peer_deviates, 900, 25000) {
   if (withhold && rl.v_lines.size() > 1) ctx.fail("flip/twoparty/share-revealed-although-commitment-withheld", "honest side wrote " + std::to_string(rl.v_lines.size()) + " lines");
   // (2) an opening / commitment that does not match => rejection
   if (applied && ex == MUST_REFUSE && !(m.name == "duplicate-line" && line == 2) && rh) ctx.fail("flip/twoparty/mismatching-" + std::string(withhold ? "withheld" : line == 0 ? "commitment" : "opening") + "-accepted/" + (withhold ? "withhold" : m.name), ctx.desc.str() + (m.textual ? "" : " value " + S(v) + " -> " + S(mv)));
+  delete eh; delete ep;
+}
+
+// "All coin values": a peer that knows the trapdoor d = log_g h of the commitment scheme can open its commitment to any share, so the
+// harness steers the coin to the boundary values 0, 1, q-1 and to random targets: the relay waits for the honest side's share, then rewrites the
+// peer's opening (a, a^) to (a', a^ + (a - a')/d) with a' = target - a_honest mod q, optionally in the negative representative a' - q (which the
+// range check |a| < q admits).  The commitment still opens correctly, so the honest side must complete, and its output must be the residue
+// target in [0, q).
+VF_SUB(twoparty_steered_coin, 400, 12000) {
+  Grp G = pick_grp(ctx); size_t honest_role = ctx.c.index(2); JareckiLysyanskayaEDCF *eh = mk(G, 2, 0), *ep = mk(G, 2, 0); Z ah = -1, ap; bool rh = false, rp = false;
+  std::string tcls; Z target; switch (ctx.c.weighted({4, 2, 2, 3})) { case 0: tcls = "0"; target = 0; break; case 1: tcls = "1"; target = 1; break; case 2: tcls = "q-1"; target = G.q - 1; break; default: tcls = "random"; target = zrand_below(ctx, G.q); }
+  bool negative = ctx.c.prob(1, 3); Z delta = 0, dinv = zinv(G.d, G.q), a_new; bool steered = false; Relay rl;
+  auto hook = [&](size_t n, std::string &l) -> int {
+    if (n == 1) { std::string hs; for (int k = 0; k < 400 && !rl.v_line(1, hs); k++) std::this_thread::sleep_for(std::chrono::milliseconds(5)); // the honest side opens without waiting for the peer's opening
+      Z a; if (hs.empty() || mpz_set_str(a.get_mpz_t(), l.c_str(), TMCG_MPZ_IO_BASE) != 0) return 0; Z ahon = zparse62(hs);
+      a_new = zmod(target - ahon, G.q); delta = zmod(a - a_new, G.q); if (negative && a_new != 0) a_new -= G.q; l = z62(a_new); steered = true; return 0; }
+    if (n == 2 && steered) { Z r; if (mpz_set_str(r.get_mpz_t(), l.c_str(), TMCG_MPZ_IO_BASE) != 0) return 0; l = z62(zmod(r + delta * dinv, G.q)); }
+    return 0; };
+  rl.run(ctx.c.seed64(), ctx.c.seed64(), [&](std::iostream &io) { std::stringstream err; rp = ep->Flip_twoparty(1 - honest_role, ap.get_mpz_t(), io, io, err); },
+         [&](std::iostream &io) { std::stringstream err; rh = eh->Flip_twoparty(honest_role, ah.get_mpz_t(), io, io, err); }, hook);
+  ctx.desc << "twoparty honest-role=" << honest_role << " coin steered to " << tcls << (negative ? " with the peer's share in the negative representative" : "") << (steered ? "" : " (not steered: honest share not seen in time)") << " -> output " << S(ah);
+  ctx.label("target:" + tcls); ctx.label(negative ? "share:negative-representative" : "share:in-range"); if (!steered) { ctx.label("not-steered"); delete eh; delete ep; return; }
+  ctx.nontrivial(ctx.desc.str());
+  if (!rh) ctx.fail("flip/twoparty/matching-opening-refused/steered", ctx.desc.str());
+  else if (ah != target) ctx.fail(ah < 0 || ah >= G.q ? "flip/twoparty/output-out-of-range/steered" : "flip/twoparty/output-is-not-sum-of-shares/steered", "expected the residue " + S(target) + ": " + ctx.desc.str());
   delete eh; delete ep;
 }
 
